@@ -23,10 +23,10 @@ type gInfo struct {
 }
 
 type dumpInfo struct {
-	Waiters  []gInfo // in SendEvent, blocked in sync.(*Mutex).Lock
-	Holders  []gInfo // in SendEvent, not blocked at the Lock (writing, or paused at the hook)
-	InWrite  []gInfo // subset of Holders that is inside WriteMessage
-	Raw      string
+	Waiters []gInfo // in SendEvent, blocked in sync.(*Mutex).Lock
+	Holders []gInfo // in SendEvent, not blocked at the Lock (writing, or paused at the hook)
+	InWrite []gInfo // subset of Holders that is inside WriteMessage
+	Raw     string
 }
 
 var reGHead = regexp.MustCompile(`^goroutine (\d+) \[([^\]]*)\]:`)
